@@ -7,6 +7,9 @@
 //!             adaptive splitting inside one object stream);
 //!  * seq    : the digest of each file as loaded by the `--no-default-features` (sequential) build of the same harness,
 //!             obtained from the binary named by LOPDF_VERIF_SEQ_BIN; every other load must equal it.
+//! A second family (see `limits`) puts objects that sit at, just below and beyond the parser's nesting limits into small
+//! and long files and varies the history of the threads that parse them: what a worker parsed before - in this load or
+//! in earlier loads on the same pool - must not change what becomes of an object.
 #![allow(dead_code)]
 use crate::common::*;
 use lopdf::{Document, Object};
@@ -42,7 +45,7 @@ pub fn spec_name(s: &Spec) -> String { format!("k{}-{:?}-w{}", s.k, s.mode, s.wi
 
 const SHARED: u32 = 20;
 const TWICE: u32 = 21;
-const XREF_ID: u32 = 60;
+const XREF_ID: u32 = 900;   // above every other number the generator uses (containers 10.., unique objects 30..61 for k = 16)
 const DATA: &[u8] = b"0123456789abcdefghijklmnopqrstuvwxyz";
 
 enum Ent { Free, Normal(usize), Compressed(u32, u32) }
@@ -56,7 +59,7 @@ pub fn build_file(s: &Spec) -> Vec<u8> {
     let mut f: Vec<u8> = b"%PDF-1.5\n%\xE2\xE3\xCF\xD3\n".to_vec();
     let mut ent: BTreeMap<u32, Ent> = BTreeMap::new();
     ent.insert(0, Ent::Free);
-    let mut put = |f: &mut Vec<u8>, ent: &mut BTreeMap<u32, Ent>, id: u32, body: &[u8]| {
+    let put = |f: &mut Vec<u8>, ent: &mut BTreeMap<u32, Ent>, id: u32, body: &[u8]| {
         ent.insert(id, Ent::Normal(f.len()));
         f.extend_from_slice(format!("{} 0 obj\n", id).as_bytes()); f.extend_from_slice(body); f.extend_from_slice(b"\nendobj\n");
     };
@@ -106,9 +109,14 @@ pub fn build_file(s: &Spec) -> Vec<u8> {
         Mode::Absent | Mode::Normal => {}
         Mode::Elsewhere => { ent.insert(SHARED, Ent::Compressed(2, 0)); }
     }
-    // cross-reference stream, W [1 4 2], subsections for the runs of present entries
+    write_xref(&mut f, &mut ent, XREF_ID);
+    f
+}
+
+/// cross-reference stream (object `xref_id`), W [1 4 2], subsections for the runs of present entries; startxref; %%EOF
+fn write_xref(f: &mut Vec<u8>, ent: &mut BTreeMap<u32, Ent>, xref_id: u32) {
     let xpos = f.len();
-    ent.insert(XREF_ID, Ent::Normal(xpos));
+    ent.insert(xref_id, Ent::Normal(xpos));
     let size = ent.keys().max().unwrap() + 1;
     let mut rows: Vec<u8> = vec![]; let mut index: Vec<(u32, u32)> = vec![];
     for n in 0..size {
@@ -118,10 +126,9 @@ pub fn build_file(s: &Spec) -> Vec<u8> {
         rows.push(t); rows.extend_from_slice(&a.to_be_bytes()); rows.extend_from_slice(&b.to_be_bytes());
     }
     let idx: String = index.iter().map(|(a, b)| format!("{} {} ", a, b)).collect();
-    f.extend_from_slice(format!("{} 0 obj\n<< /Type /XRef /Size {} /W [1 4 2] /Index [{}] /Root 1 0 R /Length {} >>\nstream\n", XREF_ID, size, idx.trim_end(), rows.len()).as_bytes());
+    f.extend_from_slice(format!("{} 0 obj\n<< /Type /XRef /Size {} /W [1 4 2] /Index [{}] /Root 1 0 R /Length {} >>\nstream\n", xref_id, size, idx.trim_end(), rows.len()).as_bytes());
     f.extend_from_slice(&rows); f.extend_from_slice(b"\nendstream\nendobj\n");
     f.extend_from_slice(format!("startxref\n{}\n%%EOF\n", xpos).as_bytes());
-    f
 }
 
 fn canon(o: &Object, out: &mut String) {
@@ -173,13 +180,24 @@ fn first_diff(a: &str, b: &str) -> String {
 pub fn digests(thorough: bool) -> Value {
     set_order(usize::MAX);
     let mut m = serde_json::Map::new();
-    for s in specs(thorough) { m.insert(spec_name(&s), json!(load(&build_file(&s)).unwrap_or_else(|e| e))); }
+    // LOPDF_VERIF_C08_PART = "specs" / "limits" asks for one of the two families only (the caller runs the two concurrently)
+    let part = std::env::var("LOPDF_VERIF_C08_PART").unwrap_or_default();
+    if part != "limits" { for s in specs(thorough) { m.insert(spec_name(&s), json!(load(&build_file(&s)).unwrap_or_else(|e| e))); } }
+    if part == "specs" { return Value::Object(m); }
+    // the second family, judged by this build on its own; the caller compares the signatures with its expectations
+    let mut rep = Report::new("second family on this build", false);
+    let out = limits(thorough, &[1], "a long-lived plain thread", 3, &mut rep);
+    m.insert("limit-alphabet".into(), json!(out.alphabet));
+    for (name, (_, loaded)) in out.files { m.insert(format!("L:{}", name), json!(loaded)); }
+    m.insert("limit-failures".into(), Value::Array(rep.failures.iter().map(|f| json!({"obligation": f.obligation, "detail": f.detail, "input": f.input, "observed": f.observed})).collect()));
     Value::Object(m)
 }
 
-fn seq_digests(thorough: bool) -> Result<Value, String> {
+fn seq_digests(thorough: bool) -> Result<Value, String> { seq_digests_part(thorough, "") }
+fn seq_digests_part(thorough: bool, part: &str) -> Result<Value, String> {
     let bin = std::env::var("LOPDF_VERIF_SEQ_BIN").map_err(|_| "LOPDF_VERIF_SEQ_BIN is not set".to_string())?;
     let mut c = std::process::Command::new(bin);
+    c.env("LOPDF_VERIF_C08_PART", part);
     c.arg("c08-digests").arg("--tier").arg(if thorough { "thorough" } else { "quick" });
     let out = c.output().map_err(|e| format!("sequential build did not start: {}", e))?;
     let text = String::from_utf8_lossy(&out.stdout).to_string();
@@ -223,21 +241,464 @@ fn check_spec(s: &Spec, seq: &str, max_orders: usize, repeats: usize, rep: &mut 
     }
 }
 
+// ---------------------------------------------------------------------------------------------------------------------
+// Second family: objects AT A PARSER LIMIT x STATE HISTORY of the threads that parse them.
+//
+// "Regardless of how the work is split among the workers" means that what becomes of one object may depend on that
+// object (and the file) alone - never on what the worker that happens to parse it has parsed before, in this load or in
+// an earlier one on the same pool. An object that is parsed to completion leaves nothing behind; the interesting
+// objects are those on which the parser gives up half-way (its nesting limits). So:
+//  * object alphabet O: kind {arrays, dictionaries, arrays and dictionaries alternating, parentheses in a literal
+//    string} x {ordinary object, member of an object stream} x nesting depth {2, A-1, A, A+1, A+6}, where A is the
+//    deepest nesting that loads when the object is alone in the file (found by probing 20..=112 on fresh threads);
+//  * files: every sequence of 1, 2 (thorough: 3) objects of O, and long files (64 objects drawn from O; A+1 and A
+//    alternating) for real work splitting;
+//  * oracle (independent of the loader): an object loads in every file, on every pool, after every history exactly as
+//    it does alone on a fresh thread, and if it loads it is the object that was written; everything else in the file
+//    is constant. The sequential build must agree.
+//  * histories: every file on a fresh thread (one worker parses everything in order: the one deterministic schedule);
+//    every sequence of 2 (thorough: 3) single-object files on one fresh thread; every file, and every ordered pair of
+//    single-object files, on long-lived pools of 1,2,3,4,8,16 threads and on the global pool, which therefore carry the
+//    history of the whole enumeration; long files on fresh pools of every size, repeatedly.
+
+#[derive(Clone, Copy, Debug, PartialEq, Eq, Hash, PartialOrd, Ord)]
+pub enum Kind { Array, Dict, Mixed, Str }
+const KINDS: [Kind; 4] = [Kind::Array, Kind::Dict, Kind::Mixed, Kind::Str];
+
+#[derive(Clone, Copy, Debug, PartialEq, Eq, Hash, PartialOrd, Ord)]
+pub struct Slot { pub kind: Kind, pub depth: usize, pub compressed: bool }
+
+const PROBE_LO: usize = 20;
+const PROBE_HI: usize = 112;
+const LONG: usize = 64;
+
+fn slot_name(s: &Slot) -> String { format!("{}{}{}", match s.kind { Kind::Array => 'a', Kind::Dict => 'd', Kind::Mixed => 'm', Kind::Str => 's' }, s.depth, if s.compressed { 'c' } else { 'p' }) }
+fn slot_from(t: &str) -> Option<Slot> {
+    let kind = match t.chars().next()? { 'a' => Kind::Array, 'd' => Kind::Dict, 'm' => Kind::Mixed, 's' => Kind::Str, _ => return None };
+    let compressed = match t.chars().last()? { 'c' => true, 'p' => false, _ => return None };
+    Some(Slot { kind, depth: t.get(1..t.len() - 1)?.parse().ok()?, compressed })
+}
+pub fn file_name(f: &[Slot]) -> String { f.iter().map(slot_name).collect::<Vec<_>>().join(",") }
+fn file_from(t: &str) -> Option<Vec<Slot>> { t.split(',').map(slot_from).collect() }
+fn slot_words(s: &Slot) -> String {
+    format!("{} nested {} deep, {}", match s.kind { Kind::Array => "arrays", Kind::Dict => "dictionaries", Kind::Mixed => "arrays and dictionaries", Kind::Str => "parentheses in a literal string" }, s.depth, if s.compressed { "in an object stream" } else { "an ordinary object" })
+}
+
+/// the text of the object in the file
+fn slot_text(s: &Slot) -> String {
+    let d = s.depth;
+    let dict_at = |i: usize| match s.kind { Kind::Dict => true, Kind::Mixed => i % 2 == 1, _ => false };
+    if s.kind == Kind::Str { return format!("{}x{}", "(".repeat(d), ")".repeat(d)); }
+    let mut t = String::new();
+    for i in 0..d { t.push_str(if dict_at(i) { "<</D" } else { "[" }); }
+    t.push_str(" 7");
+    for i in (0..d).rev() { t.push_str(if dict_at(i) { ">>" } else { "]" }); }
+    t
+}
+
+/// the same object put together from the library's data types (no parser involved)
+fn slot_object(s: &Slot) -> Object {
+    let d = s.depth;
+    if s.kind == Kind::Str { return Object::string_literal(format!("{}x{}", "(".repeat(d - 1), ")".repeat(d - 1)).into_bytes()); }
+    let mut o = Object::Integer(7);
+    for i in (0..d).rev() {
+        let dict = match s.kind { Kind::Dict => true, Kind::Mixed => i % 2 == 1, _ => false };
+        o = if dict { let mut m = lopdf::Dictionary::new(); m.set("D", o); Object::Dictionary(m) } else { Object::Array(vec![o]) };
+    }
+    o
+}
+
+/// Objects 1 catalog, 2 pages; object j of the sequence has the number 101+2j; a run of (at most 8) consecutive members
+/// of object streams shares one container, numbered 100+2j for the first member j of the run; the cross-reference
+/// stream comes last. On one thread the objects are therefore parsed in the order of the sequence.
+pub fn build_limit_file(slots: &[Slot]) -> Vec<u8> {
+    let mut f: Vec<u8> = b"%PDF-1.5\n%\xE2\xE3\xCF\xD3\n".to_vec();
+    let mut ent: BTreeMap<u32, Ent> = BTreeMap::new();
+    ent.insert(0, Ent::Free);
+    let put = |f: &mut Vec<u8>, ent: &mut BTreeMap<u32, Ent>, id: u32, body: &[u8]| {
+        ent.insert(id, Ent::Normal(f.len()));
+        f.extend_from_slice(format!("{} 0 obj\n", id).as_bytes()); f.extend_from_slice(body); f.extend_from_slice(b"\nendobj\n");
+    };
+    put(&mut f, &mut ent, 1, b"<< /Type /Catalog /Pages 2 0 R >>");
+    put(&mut f, &mut ent, 2, b"<< /Type /Pages /Kids [] /Count 0 >>");
+    let mut j = 0;
+    while j < slots.len() {
+        if !slots[j].compressed { put(&mut f, &mut ent, 101 + 2 * j as u32, slot_text(&slots[j]).as_bytes()); j += 1; continue; }
+        let cid = 100 + 2 * j as u32;
+        let mut index = String::new(); let mut body = String::new(); let mut n = 0u32;
+        while j < slots.len() && slots[j].compressed && n < 8 {
+            let id = 101 + 2 * j as u32;
+            index.push_str(&format!("{} {} ", id, body.len())); body.push_str(&slot_text(&slots[j])); body.push(' ');
+            ent.insert(id, Ent::Compressed(cid, n));
+            n += 1; j += 1;
+        }
+        let content = format!("{}{}", index, body);
+        let mut o = format!("<< /Type /ObjStm /N {} /First {} /Length {} >>\nstream\n", n, index.len(), content.len()).into_bytes();
+        o.extend_from_slice(content.as_bytes()); o.extend_from_slice(b"\nendstream");
+        put(&mut f, &mut ent, cid, &o);
+    }
+    write_xref(&mut f, &mut ent, 100 + 2 * slots.len() as u32);
+    f
+}
+
+fn big_pool(threads: usize) -> rayon::ThreadPool { rayon::ThreadPoolBuilder::new().num_threads(threads).stack_size(8 << 20).build().expect("pool") }
+/// `load` without the detour over the process-wide panic hook (the second family loads from several threads at once)
+fn load2(bytes: &[u8]) -> Result<String, String> {
+    match std::panic::catch_unwind(std::panic::AssertUnwindSafe(|| Document::load_mem(bytes))) {
+        Err(e) => Err(format!("panic: {}", if let Some(s) = e.downcast_ref::<String>() { s.clone() } else if let Some(s) = e.downcast_ref::<&str>() { s.to_string() } else { "?".to_string() })),
+        Ok(Err(e)) => Ok(format!("load error: {}", e)),
+        Ok(Ok(d)) => Ok(digest(&d)),
+    }
+}
+/// load on a thread that has never parsed anything
+fn load_fresh(bytes: &[u8]) -> Result<String, String> { on_fresh_thread(|| load2(bytes)) }
+/// run `f` on a new thread that is the only worker of a rayon pool of its own (no second thread, no hand-over: the
+/// parallel loader runs everything on this very thread, the sequential one anyway)
+fn on_fresh_thread<T: Send>(f: impl FnOnce() -> T + Send) -> T {
+    std::thread::scope(|sc| std::thread::Builder::new().stack_size(64 << 20).spawn_scoped(sc, || {
+        let pool = rayon::ThreadPoolBuilder::new().num_threads(1).use_current_thread().build().expect("pool on the current thread");
+        pool.install(f)
+    }).expect("new thread").join().expect("fresh thread"))
+}
+fn load_on(pool: &Option<rayon::ThreadPool>, bytes: &[u8]) -> Result<String, String> { match pool { Some(p) => p.install(|| load2(bytes)), None => load2(bytes) } }
+
+fn split_line(l: &str) -> Option<((u32, u32), &str)> {
+    let (id, rest) = l.split_once(": ")?;
+    let (a, b) = id.split_once(' ')?;
+    Some(((a.parse().ok()?, b.parse().ok()?), rest))
+}
+fn slot_of(id: (u32, u32), n: usize) -> Option<usize> { if id.1 == 0 && id.0 >= 101 && id.0 % 2 == 1 && ((id.0 - 101) / 2) < n as u32 { Some(((id.0 - 101) / 2) as usize) } else { None } }
+/// what became of each object of the sequence: None = not in the document, Some(rendering)
+fn slot_outcomes(d: &str, n: usize) -> Vec<Option<String>> {
+    let mut v = vec![None; n];
+    for l in d.lines().skip(1) { if let Some((id, rest)) = split_line(l) { if let Some(j) = slot_of(id, n) { v[j] = Some(rest.to_string()); } } }
+    v
+}
+fn presence(d: &str, n: usize) -> String { slot_outcomes(d, n).iter().map(|o| if o.is_some() { '+' } else { '-' }).collect() }
+fn fnv(s: &str) -> u64 { s.bytes().fold(0xcbf29ce484222325u64, |h, b| (h ^ b as u64).wrapping_mul(0x100000001b3)) }
+/// what the other build gets to see of a digest: its hash, and which objects of the sequence were loaded
+fn signature(d: &str, n: usize) -> String { let p = presence(d, n); format!("{:016x}:{}", fnv(d), if n > 8 { format!("{} of {} loaded", p.matches('+').count(), n) } else { p }) }
+
+pub struct Lim { pub alphabet: Vec<Slot>, iso: std::collections::HashMap<Slot, Option<String>> }
+
+/// what becomes of the object when it is alone in the file and the thread is fresh; Err: the file did not load
+fn outcome_alone(s: &Slot) -> Result<Option<String>, String> {
+    let d = load_fresh(&build_limit_file(&[*s]))?;
+    if !d.starts_with("version=") { return Err(d); }
+    Ok(slot_outcomes(&d, 1).remove(0))
+}
+
+impl Lim {
+    fn empty() -> Lim { Lim { alphabet: vec![], iso: Default::default() } }
+    fn learn(&mut self, s: &Slot, rep: &mut Report) -> Option<bool> {
+        if let Some(o) = self.iso.get(s) { return Some(o.is_some()); }
+        rep.case(true);
+        self.note(s, outcome_alone(s), rep)
+    }
+    fn note(&mut self, s: &Slot, outcome: Result<Option<String>, String>, rep: &mut Report) -> Option<bool> {
+        match outcome {
+            Err(e) => { rep.fail("generated-file-loads", format!("[{}] the file with this single object ({}) does not load: {}", slot_name(s), slot_words(s), e), limit_input(&[*s], json!("fresh"), "generated-file-loads", false), e.clone()); None }
+            Ok(o) => {
+                let want = format!("{:?}", slot_object(s));
+                if let Some(r) = &o { if *r != want { rep.fail("a-loaded-object-is-the-object-that-was-written", format!("[{}] alone in the file ({}) it loads as {:?}", slot_name(s), slot_words(s), r.chars().take(120).collect::<String>()), limit_input(&[*s], json!("fresh"), "a-loaded-object-is-the-object-that-was-written", false), r.chars().take(200).collect()); } }
+                let p = o.is_some(); self.iso.insert(*s, o); Some(p)
+            }
+        }
+    }
+    /// find the limit of every kind of object in both positions and fix the alphabet around it
+    fn probe(rep: &mut Report) -> Lim {
+        let mut lim = Lim::empty();
+        let mut all: Vec<Slot> = vec![];
+        for kind in KINDS { for compressed in [false, true] { for depth in std::iter::once(2).chain(PROBE_LO..=PROBE_HI) { all.push(Slot { kind, depth, compressed }); } } }
+        for (i, r) in fan(8, all.len(), rep, &|i, rep: &mut Report| { rep.case(true); Some(outcome_alone(&all[i])) }) { lim.note(&all[i], r, rep); }
+        for kind in KINDS { for compressed in [false, true] {
+            let mut acc = vec![];
+            for depth in PROBE_LO..=PROBE_HI { match lim.learn(&Slot { kind, depth, compressed }, rep) { Some(p) => acc.push(p), None => break } }
+            let n_ok = acc.iter().take_while(|p| **p).count();
+            let name = slot_name(&Slot { kind, depth: 0, compressed });
+            if acc.len() != PROBE_HI - PROBE_LO + 1 { continue; }
+            if n_ok == 0 || n_ok + 6 >= acc.len() || acc[n_ok..].iter().any(|p| *p) {
+                let pic: String = acc.iter().map(|p| if *p { '+' } else { '-' }).collect();
+                rep.fail("limit-family-straddles-the-limit", format!("{}: nesting depths {}..={} alone in a file load as {} - no single limit with room on both sides; this kind of object is left out", name, PROBE_LO, PROBE_HI, pic), json!({"limit": name, "at": "probe", "obligation": "limit-family-straddles-the-limit"}), pic.clone());
+                continue;
+            }
+            let a = PROBE_LO + n_ok - 1;
+            for depth in [2, a - 1, a, a + 1, a + 6] { let s = Slot { kind, depth, compressed }; if lim.learn(&s, rep).is_some() { lim.alphabet.push(s); } }
+        } }
+        lim
+    }
+    /// the digest the file must have: everything that is not an object of the sequence as loaded, the objects of the
+    /// sequence as they load alone
+    fn expected(&self, d: &str, f: &[Slot]) -> String {
+        let mut lines = d.lines();
+        let head = lines.next().unwrap_or("").to_string();
+        let mut m: BTreeMap<(u32, u32), String> = BTreeMap::new();
+        for l in lines { if let Some((id, rest)) = split_line(l) { if slot_of(id, f.len()).is_none() { m.insert(id, rest.to_string()); } } }
+        for (j, s) in f.iter().enumerate() { if let Some(Some(r)) = self.iso.get(s) { m.insert((101 + 2 * j as u32, 0), r.clone()); } }
+        let mut out = head; out.push('\n');
+        for (id, r) in m { out.push_str(&format!("{} {}: {}\n", id.0, id.1, r)); }
+        out
+    }
+    fn files(&self, thorough: bool) -> Vec<Vec<Slot>> {
+        let o = &self.alphabet;
+        let mut v: Vec<Vec<Slot>> = o.iter().map(|s| vec![*s]).collect();
+        for a in o { for b in o { v.push(vec![*a, *b]); } }
+        if thorough { for a in o { for b in o { for c in o { v.push(vec![*a, *b, *c]); } } } }
+        if o.is_empty() { return v; }
+        // long files: at the limit and just beyond it alternating, per kind and position (the alphabet holds 5 depths per group)
+        for g in o.chunks(5) { if g.len() == 5 { v.push((0..LONG).map(|i| if i % 2 == 0 { g[3] } else { g[2] }).collect()); } }
+        for seed in 0..(if thorough { 12u32 } else { 3 }) {
+            let mut x: u32 = 2463534242u32.wrapping_add(seed.wrapping_mul(2654435761));
+            v.push((0..LONG).map(|_| { x = x.wrapping_mul(1103515245).wrapping_add(12345); o[((x >> 16) as usize) % o.len()] }).collect());
+        }
+        v
+    }
+}
+
+fn limit_input(f: &[Slot], at: Value, obligation: &str, thorough: bool) -> Value { json!({"limit": file_name(f), "at": at, "obligation": obligation, "tier": if thorough { "thorough" } else { "quick" }}) }
+
+/// how a digest differs from the expected one, in terms of the objects of the sequence
+fn limit_diff(got: &str, want: &str, f: &[Slot]) -> String {
+    if !got.starts_with("version=") { return got.chars().take(160).collect(); }
+    let (g, w) = (slot_outcomes(got, f.len()), slot_outcomes(want, f.len()));
+    for j in 0..f.len() {
+        if g[j] == w[j] { continue; }
+        let s = &f[j];
+        let fate = |o: &Option<String>| match o { None => "is not loaded".to_string(), Some(r) if *r == format!("{:?}", slot_object(s)) => "is loaded".to_string(), Some(r) => format!("is loaded as {:?}", r.chars().take(60).collect::<String>()) };
+        return format!("object {} of {} (number {}: {}) {}, but alone in a file on a fresh thread it {}", j, f.len(), 101 + 2 * j, slot_words(s), fate(&g[j]), fate(&w[j]));
+    }
+    first_diff(got, want)
+}
+
+pub struct LimOut { pub alphabet: String, /// file -> (signature of the expected digest, signature of the digest loaded on a fresh thread)
+    pub files: BTreeMap<String, (String, String)> }
+
+const OB_NEIGHBOURS: &str = "an-object-loads-the-same-whatever-its-worker-parsed-before";
+const OB_HISTORY: &str = "a-load-does-not-depend-on-earlier-loads-on-the-same-pool";
+const OB_POOLS: &str = "every-pool-size-gives-the-same-document";
+// the first 48 characters of a detail (after the file in brackets) are what `Report::fail` groups failures by
+const WHAT_FRESH: &str = "one fresh thread parses the whole file: not every object fares as it does alone";
+const WHAT_WALK: &str = "a pool that has loaded other files before loads this one differently";
+const WHAT_SESSION: &str = "loaded on one fresh thread after other files, the file loads differently";
+const WHAT_POOLS: &str = "a fresh pool of several threads loads the long file differently";
+
+fn short(name: &str) -> String { if name.len() > 60 { format!("{}... ({} objects)", &name[..60], name.split(',').count()) } else { name.to_string() } }
+
+/// one load of a file of the family, judged against the expected digest; true if it was as expected
+fn judge(rep: &mut Report, obligation: &str, f: &[Slot], got: Result<String, String>, want: &str, what: &str, at: Value, thorough: bool) -> bool {
+    rep.case(true);
+    match got {
+        Err(p) => { rep.fail("no-panic", format!("[{}] {}: {}", short(&file_name(f)), what, p), limit_input(f, at, "no-panic", thorough), p.clone()); false }
+        Ok(d) if d == want => true,
+        Ok(d) => { let diff = limit_diff(&d, want, f); rep.fail(obligation, format!("[{}] {}: {}", short(&file_name(f)), what, diff), limit_input(f, at, obligation, thorough), diff.clone()); false }
+    }
+}
+
+/// a closed walk over 0..n in which every ordered pair (a, b), a = b included, occurs exactly once as neighbours (n*n+1 stops)
+fn euler_tour(n: usize) -> Vec<usize> {
+    if n == 0 { return vec![]; }
+    let (mut next, mut stack, mut out) = (vec![0usize; n], vec![0usize], vec![]);
+    while let Some(&v) = stack.last() { if next[v] < n { next[v] += 1; stack.push(next[v] - 1); } else { out.push(v); stack.pop(); } }
+    out.reverse();
+    out
+}
+
+/// `n` items dealt out to `workers` plain threads (item i goes to thread i mod workers); every thread has its own report
+fn fan<T: Send>(workers: usize, n: usize, rep: &mut Report, f: &(dyn Fn(usize, &mut Report) -> Option<T> + Sync)) -> Vec<(usize, T)> {
+    let parts: Vec<(Report, Vec<(usize, T)>)> = std::thread::scope(|sc| {
+        let hs: Vec<_> = (0..workers).map(|w| sc.spawn(move || {
+            let mut r = Report::new("part", false); let mut v = vec![];
+            let mut i = w; while i < n { if let Some(t) = f(i, &mut r) { v.push((i, t)); } i += workers; }
+            (r, v)
+        })).collect();
+        hs.into_iter().map(|h| h.join().expect("worker of the harness")).collect()
+    });
+    let mut all = vec![];
+    for (r, v) in parts { rep.merge(r); all.extend(v); }
+    all.sort_by_key(|x| x.0);
+    all
+}
+
+/// The whole second family on this build. `sizes`: the long-lived and the fresh pools; `here`: what a load outside of any
+/// pool runs on (the global pool in the parallel build, a plain thread in the sequential one). The fresh-thread loads
+/// are independent of each other and are dealt out to 8 threads of the harness; every long-lived pool is driven by its
+/// own thread, all of them at the same time (so the pools also compete for the cores).
+pub fn limits(thorough: bool, sizes: &[usize], here: &str, repeats: usize, rep: &mut Report) -> LimOut {
+    set_order(usize::MAX);
+    let workers = 8;
+    let lim = Lim::probe(rep);
+    let mut out = LimOut { alphabet: file_name(&lim.alphabet), files: BTreeMap::new() };
+    let files = lim.files(thorough);
+    // one fresh thread parses everything, in the order of the sequence
+    struct Loaded { bytes: Vec<u8>, want: String }
+    let fresh = fan(workers, files.len(), rep, &|i, rep: &mut Report| {
+        let f = &files[i];
+        let name = file_name(f);
+        let bytes = build_limit_file(f);
+        rep.case(true);
+        let d = match load_fresh(&bytes) {
+            Err(p) => { rep.fail("no-panic", format!("[{}] on a fresh thread: {}", short(&name), p), limit_input(f, json!("fresh"), "no-panic", thorough), p.clone()); return None; }
+            Ok(d) if !d.starts_with("version=") => { rep.fail("generated-file-loads", format!("[{}] the file does not load: {}", short(&name), d), limit_input(f, json!("fresh"), "generated-file-loads", thorough), d.clone()); return None; }
+            Ok(d) => d,
+        };
+        let want = lim.expected(&d, f);
+        if d != want { let diff = limit_diff(&d, &want, f); rep.fail(OB_NEIGHBOURS, format!("[{}] {}: {}", short(&name), WHAT_FRESH, diff), limit_input(f, json!("fresh"), OB_NEIGHBOURS, thorough), diff.clone()); }
+        let sigs = (signature(&want, f.len()), signature(&d, f.len()));
+        // the long-lived pools get the files of up to 2 objects and the long ones
+        Some((sigs, if f.len() != 3 { Some(Loaded { bytes, want }) } else { None }))
+    });
+    let mut kept: Vec<(usize, Loaded)> = vec![];
+    for (i, (sigs, l)) in fresh { out.files.insert(file_name(&files[i]), sigs); if let Some(l) = l { kept.push((i, l)); } }
+    let single: std::collections::HashMap<Slot, &Loaded> = kept.iter().filter(|(i, _)| files[*i].len() == 1).map(|(i, l)| (files[*i][0], l)).collect();
+    let o: Vec<Slot> = lim.alphabet.iter().filter(|s| single.contains_key(s)).cloned().collect();
+    // every sequence of 2 (3) single-object files on one fresh thread
+    let h = if thorough { 3 } else { 2 };
+    let get = |s: &Slot| single.get(s).map(|l| (l.bytes.clone(), l.want.clone()));
+    fan(workers, if o.is_empty() { 0 } else { o.len().pow(h) }, rep, &|mut k, rep: &mut Report| {
+        let mut session = vec![]; for _ in 0..h { session.push(o[k % o.len()]); k /= o.len(); } session.reverse();
+        run_session(&session, 1, &get, rep, thorough);
+        None::<()>
+    });
+    // pools that live through the whole enumeration: every kept file in turn, then a walk in which every ordered pair of single-object files occurs back to back
+    let tour = euler_tour(o.len());
+    let mut labels: Vec<(String, usize)> = vec![(here.to_string(), 0)];
+    for t in sizes { labels.push((format!("a long-lived pool of {} threads", t), *t)); }
+    fan(labels.len(), labels.len(), rep, &|p, rep: &mut Report| {
+        let (label, t) = &labels[p];
+        let pool = if *t == 0 { None } else { Some(big_pool(*t)) };
+        let mut step = 0usize;
+        for (i, l) in &kept {
+            judge(rep, OB_HISTORY, &files[*i], load_on(&pool, &l.bytes), &l.want, &format!("{} ({}, after {} earlier loads of this family there)", WHAT_WALK, label, step), json!({"walk": t}), thorough);
+            step += 1;
+        }
+        let mut before: Option<Slot> = None;
+        for k in &tour {
+            let s = o[*k]; let l = single[&s];
+            let what = format!("{} ({}, load number {} there{})", WHAT_WALK, label, step, before.map(|b| format!(", right after {}", slot_name(&b))).unwrap_or_default());
+            judge(rep, OB_HISTORY, &[s], load_on(&pool, &l.bytes), &l.want, &what, json!({"walk": t}), thorough);
+            step += 1; before = Some(s);
+        }
+        None::<()>
+    });
+    // real splits of the long files on fresh pools of every size
+    for (i, l) in kept.iter().filter(|(i, _)| files[*i].len() > 3) {
+        for t in sizes {
+            let pool = big_pool(*t);
+            for r in 0..repeats { if !judge(rep, OB_POOLS, &files[*i], pool.install(|| load2(&l.bytes)), &l.want, &format!("{} (load number {} on a pool of {} threads)", WHAT_POOLS, r, t), json!({"threads": t, "repeats": repeats}), thorough) { break; } }
+        }
+    }
+    out
+}
+
+/// the single-object files of `session` one after the other on one fresh pool; every load must be as expected
+fn run_session(session: &[Slot], threads: usize, single: &(dyn Fn(&Slot) -> Option<(Vec<u8>, String)> + Sync), rep: &mut Report, thorough: bool) {
+    let names: Vec<String> = session.iter().map(slot_name).collect();
+    let files: Vec<Option<(Vec<u8>, String)>> = session.iter().map(single).collect();
+    // all loads of the session on the same pool, stopping at the first that is not as expected
+    let all = |load_one: &dyn Fn(&[u8]) -> Result<String, String>| -> Vec<Result<String, String>> {
+        let mut got = vec![];
+        for f in &files { let Some((bytes, want)) = f else { break }; let r = load_one(bytes); let ok = r.as_ref().map(|d| d == want).unwrap_or(false); got.push(r); if !ok { break; } }
+        got
+    };
+    let got = if threads == 1 { on_fresh_thread(|| all(&|b| load2(b))) } else { let pool = big_pool(threads); all(&|b| pool.install(|| load2(b))) };
+    for (i, r) in got.into_iter().enumerate() {
+        let Some((_, want)) = &files[i] else { break };
+        let what = if i == 0 { format!("{} (nothing loaded before, pool of {} thread(s))", WHAT_SESSION, threads) } else { format!("{} (pool of {} thread(s), loaded before: {})", WHAT_SESSION, threads, names[..i].join(", then ")) };
+        judge(rep, OB_HISTORY, &[session[i]], r, want, &what, json!({"session": names[..=i], "threads": threads}), thorough);
+    }
+}
+
+/// the second family on this (parallel) build, and the comparison with the sequential build
+fn check_limits(thorough: bool, seq: &Value, repeats: usize, rep: &mut Report) {
+    let out = limits(thorough, &[1, 2, 3, 4, 8, 16], "the global pool", repeats, rep);
+    const OB: &str = "equals-sequential-build";
+    let seq_alphabet = seq.get("limit-alphabet").and_then(|x| x.as_str()).unwrap_or("(none)");
+    if seq_alphabet != out.alphabet {
+        rep.fail(OB, format!("the sequential build finds other nesting limits: its alphabet of objects is {}, this build's is {}", seq_alphabet, out.alphabet), json!({"limit": "", "at": "seq", "obligation": OB, "tier": if thorough { "thorough" } else { "quick" }}), seq_alphabet.to_string());
+    } else {
+        for (name, (want, _)) in &out.files {
+            rep.case(true);
+            let got = seq.get(format!("L:{}", name)).and_then(|x| x.as_str()).unwrap_or("(no digest)");
+            if got != want { let f = file_from(name).unwrap_or_default(); rep.fail(OB, format!("[{}] the sequential build loads another document on a fresh thread (hash:objects loaded): it gets {}, expected is {}", short(name), got, want), limit_input(&f, json!("seq"), OB, thorough), got.to_string()); }
+        }
+    }
+    // what the sequential build found out about itself (fresh thread, histories on its calling thread and on one worker)
+    check_seq_failures_only(seq, rep);
+}
+
+fn replay_limit(v: &Value) -> Result<(), String> {
+    let f = file_from(v["limit"].as_str().unwrap_or("")).unwrap_or_default();
+    let thorough = v["tier"].as_str() == Some("thorough");
+    let obligation = v["obligation"].as_str().unwrap_or("").to_string();
+    let mut rep = Report::new("replay", false);
+    // the recorded failure itself if it is there, else one of the same obligation, else whatever failed
+    let verdict = |rep: &Report| match rep.failures.iter().find(|x| x.obligation == obligation && x.input["limit"] == v["limit"] && x.input["at"] == v["at"]).or(rep.failures.iter().find(|x| x.obligation == obligation)).or(rep.failures.first()) { None => Ok(()), Some(x) => Err(format!("{}: {}", x.obligation, x.detail)) };
+    set_order(usize::MAX);
+    if v["build"].as_str() == Some("sequential") {
+        let seq = seq_digests(thorough)?;
+        check_seq_failures_only(&seq, &mut rep);
+        return verdict(&rep);
+    }
+    let mut lim = Lim::empty();
+    for s in &f { lim.learn(s, &mut rep); }
+    let at = &v["at"];
+    let bytes = build_limit_file(&f);
+    let want = |lim: &Lim, f: &[Slot]| -> Result<String, String> { let d = load_fresh(&build_limit_file(f))?; Ok(lim.expected(&d, f)) };
+    if at.as_str() == Some("fresh") && !f.is_empty() {
+        let w = want(&lim, &f)?;
+        judge(&mut rep, &obligation, &f, load_fresh(&bytes), &w, WHAT_FRESH, json!("fresh"), thorough);
+        return verdict(&rep);
+    }
+    if let Some(names) = at.get("session").and_then(|x| x.as_array()) {
+        let session: Vec<Slot> = names.iter().filter_map(|n| n.as_str().and_then(slot_from)).collect();
+        for s in &session { lim.learn(s, &mut rep); }
+        let threads = at["threads"].as_u64().unwrap_or(1) as usize;
+        let single = |s: &Slot| -> Option<(Vec<u8>, String)> { let w = want(&lim, &[*s]).ok()?; Some((build_limit_file(&[*s]), w)) };
+        for _ in 0..(if threads == 1 { 1 } else { 20 }) { run_session(&session, threads, &single, &mut rep, thorough); }
+        return verdict(&rep);
+    }
+    if let (Some(t), false) = (at.get("threads").and_then(|x| x.as_u64()), f.is_empty()) {
+        let w = want(&lim, &f)?;
+        let pool = big_pool(t as usize);
+        for r in 0..40 { if !judge(&mut rep, &obligation, &f, pool.install(|| load2(&bytes)), &w, &format!("{} (load number {} on a pool of {} threads)", WHAT_POOLS, r, t), at.clone(), thorough) { break; } }
+        return verdict(&rep);
+    }
+    // a load on a long-lived pool, or the comparison with the sequential build: the whole family again, same order
+    let seq = seq_digests(thorough)?;
+    let mut rep = Report::new("replay", false);
+    check_limits(thorough, &seq, if thorough { 25 } else { 3 }, &mut rep);
+    verdict(&rep)
+}
+
+fn check_seq_failures_only(seq: &Value, rep: &mut Report) {
+    for f in seq.get("limit-failures").and_then(|x| x.as_array()).cloned().unwrap_or_default() {
+        let ob = format!("sequential-build:{}", f["obligation"].as_str().unwrap_or("?"));
+        let mut input = f["input"].clone(); input["build"] = json!("sequential"); input["obligation"] = json!(ob);
+        let detail = f["detail"].as_str().unwrap_or(""); let detail = match detail.strip_prefix('[') { Some(rest) => format!("[sequential build; {}", rest), None => format!("[sequential build] {}", detail) };
+        rep.fail(&ob, detail, input, f["observed"].as_str().unwrap_or("").to_string());
+    }
+}
+
 pub fn run(thorough: bool) -> Report {
-    let mut rep = Report::new("files with k = 1..4 (thorough 6) object streams; one object number present in every stream with a different value and used as the /Length of a stream, its cross-reference entry designating each container in turn / free / absent / an ordinary object / a container that does not list it; an object listed twice in one index; zero-length and indirect-length streams; wide files (up to 8, thorough 16, containers x 300 index entries over a pool of few numbers). Per file: all k! merge orders through hook H1 (capped at 720), 6 pool sizes {1,2,3,4,8,16} x 3 (thorough 25) repeated loads, all compared with the --no-default-features build of the same harness", false);
-    let seq = match seq_digests(thorough) { Ok(v) => v, Err(e) => { eprintln!("c08: {}", e); std::process::exit(3); } };
+    let mut rep = Report::new("files with k = 1..4 (thorough 6) object streams; one object number present in every stream with a different value and used as the /Length of a stream, its cross-reference entry designating each container in turn / free / absent / an ordinary object / a container that does not list it; an object listed twice in one index; zero-length and indirect-length streams; wide files (up to 8, thorough 16, containers x 300 index entries over a pool of few numbers). Per file: all k! merge orders through hook H1 (capped at 720), 6 pool sizes {1,2,3,4,8,16} x 3 (thorough 25) repeated loads, all compared with the --no-default-features build of the same harness. SECOND FAMILY (objects at a parser limit x history of the parsing threads): object alphabet O = {arrays, dictionaries, arrays and dictionaries alternating, parentheses in a literal string} x {ordinary object, member of an object stream} x nesting depth {2, A-1, A, A+1, A+6}, A = the deepest nesting that loads when the object is alone in a file (probed over 20..=112 on fresh threads; 40 objects); files = all sequences of 1 and 2 (thorough: and 3) objects of O, plus long files of 64 objects (A+1 and A alternating per kind and position: 8; drawn from O: 3, thorough 12). Oracle: every object fares in every load exactly as it does alone in a file on a fresh thread (and a loaded object equals the object written), the rest of the document is constant. Loads per file: a fresh pool of 1 thread (one worker parses everything in file order); long-lived pools of {1,2,3,4,8,16} threads and the global pool, which load all files of up to 2 objects and the long ones in turn and then a closed walk over the single-object files in which every ordered pair occurs back to back (driven concurrently; their history is the whole enumeration); long files on fresh pools of {1,2,3,4,8,16} threads x 3 (thorough 25) loads; every sequence of 2 (thorough 3) single-object files on one fresh thread; the same family run by the sequential build on itself (fresh threads, one long-lived worker, a plain thread) and its fresh-thread documents compared with the expected ones by hash", false);
+    // the sequential build works on the second family while this build works on the first
+    let seq_limits = std::thread::spawn(move || seq_digests_part(thorough, "limits"));
+    let seq = match seq_digests_part(thorough, "specs") { Ok(v) => v, Err(e) => { eprintln!("c08: {}", e); std::process::exit(3); } };
     for s in specs(thorough) {
         let Some(sd) = seq.get(spec_name(&s)).and_then(|x| x.as_str()) else { eprintln!("c08: no sequential digest for {}", spec_name(&s)); std::process::exit(3); };
         if sd.starts_with("load error") || sd.starts_with("panic") { rep.fail("generated-file-loads", format!("{}: sequential build: {}", spec_name(&s), sd), json!({"spec": spec_json(&s)}), sd.to_string()); continue; }
         check_spec(&s, sd, 720, if thorough { 25 } else { 3 }, &mut rep);
     }
     set_order(usize::MAX);
+    let seq = match seq_limits.join().unwrap_or_else(|_| Err("the thread waiting for the sequential build died".into())) { Ok(v) => v, Err(e) => { eprintln!("c08: {}", e); std::process::exit(3); } };
+    check_limits(thorough, &seq, if thorough { 25 } else { 3 }, &mut rep);
     let s0 = Spec { k: 3, mode: Mode::Free, wide: 0 };
     rep.sample(format!("{}: {}", spec_name(&s0), String::from_utf8_lossy(&build_file(&s0)).chars().filter(|c| c.is_ascii() && !c.is_control() || *c == '\n').skip(520).take(300).collect::<String>()));
     rep
 }
 
 pub fn replay(v: &Value) -> Result<(), String> {
+    if v.get("limit").is_some() { return replay_limit(v); }
     let s = spec_from(&v["spec"]);
     let seq = seq_digests(true).or_else(|_| seq_digests(false))?;
     let sd = seq.get(spec_name(&s)).and_then(|x| x.as_str()).ok_or("no sequential digest for this file")?.to_string();
